@@ -38,6 +38,17 @@ where
             .context(format!("failed to open index file: {}", name))?;
         let header = Self::read_index_header(&file).await?;
         let metadata = Self::read_tree_meta(&file, &header).await?;
+        // the leaves are the last section of the file: a file cut inside the tree or the leaves must not be used
+        let leaves_size = (header.records_count as u64).saturating_mul(header.record_header_size as u64);
+        let expected_size = metadata.leaves_offset.saturating_add(leaves_size);
+        if file.size() < expected_size {
+            return Err(Error::from(ErrorKind::Bincode(format!(
+                "index file is cut: {} bytes, {} expected",
+                file.size(),
+                expected_size
+            )))
+            .into());
+        }
         let root_node = Self::read_root(&file, metadata.tree_offset).await?;
 
         Ok(Self {
